@@ -125,3 +125,26 @@ Proof.
               t_small_canon ltac:(vm_compute; reflexivity) SF) as (st & L & W & _ & _).
   exists bs, st. auto.
 Qed.
+
+(* ---------- the loader returns trees that are NOT canonical: witness of the known finding mixed-text-split ---------- *)
+Open Scope string_scope.
+Definition doc_mixed_split := doc "<AR-PACKAGES><AR-PACKAGE><SHORT-NAME>Pkg</SHORT-NAME><DESC><L-2 L=""EN"">a<!--c-->b</L-2></DESC></AR-PACKAGE></AR-PACKAGES>".
+Open Scope list_scope.
+
+(* strict load without warnings; the loaded tree has the text item "a", the tree loaded from its serialization has not
+   (it has "ab"): load (serialize (load d)) <> load d *)
+Lemma reload_identity_refuted :
+  exists d, match LOAD true d with
+            | Val (Ret t st) =>
+              p_warnings st = [] /\
+              match SERF (p_version st) (p_standalone st) t with
+              | Val bs => match LOAD true bs with
+                          | Val (Ret t' _) => any_node (has_text (BS "a")) t = true /\ any_node (has_text (BS "a")) t' = false /\
+                                              any_node (has_text (BS "ab")) t' = true
+                          | _ => False
+                          end
+              | _ => False
+              end
+            | _ => False
+            end.
+Proof. exists doc_mixed_split. vm_compute. auto. Qed.
